@@ -31,34 +31,34 @@ theorem simAnswer_pseudo_same {S : Static} {orc : Oracle} {fuel : Nat} {L : Leve
 
 /-- a component that is closed without having been ticked -/
 theorem childOK_unticked {S : Static} (hS : S.Valid) {orc : Oracle} {σ₀ : SimSt} {t : SimTime}
-    {Root : Comp → Prop} (ctx : TickCtx S σ₀ t Root) (sctx : SchedCtx S σ₀ t Root) {L : Level}
+    {Root Due : Comp → Prop} (ctx : TickCtx S σ₀ t Root) (sctx : SchedCtx S σ₀ t Root Due) {L : Level}
     {c : Comp} (hpar : alookup S.parent c = some L.name) (hnr : ¬ Root c) {st : SimSt}
     {mobs : List Obs}
     (hW : alookup (st.sched L.name).wake c = alookup (σ₀.sched L.name).wake c)
     (hsame : ∀ s, S.Own c s → st.sched s = σ₀.sched s)
     (hunobs : ∀ x, S.Own c x → x ∉ mobs.map Obs.comp) :
-    ChildOK S orc σ₀ Root L st mobs c :=
+    ChildOK S orc σ₀ Due L st mobs c :=
   { dev := fun _ => ⟨fun hin => absurd hin (hunobs c (Static.Own.refl S c)),
-      fun _ => ⟨fun hr => absurd hr hnr, fun _ => hW⟩⟩
+      fun _ => ⟨fun hr => absurd (sctx.due_sub c hr) hnr, fun _ => hW⟩⟩
     sys := fun hsys => by
       rw [hW, hsame c (Static.Own.refl S c)]
-      exact sctx.min₀ c L.name hsys hpar
+      exact sctx.min₀ c L.name hsys hpar (fun hd => hnr (sctx.due_sub c hd))
     below := unticked_sched hS ctx sctx hnr hsame hunobs
     persist := fun _ h => by rw [hW]; exact h }
 
 theorem GenSched.step {S : Static} (hS : S.Valid) {orc : Oracle} {σ₀ : SimSt} {t : SimTime}
-    {Root : Comp → Prop} (ctx : TickCtx S σ₀ t Root) (sctx : SchedCtx S σ₀ t Root) {fuel : Nat}
-    (IH : SchedIH S orc σ₀ t Root fuel) {L : Level} (hL : L ∈ S.levels) {roots : List Comp}
-    {st0 : SimSt} {mobs0 : List Obs} (hpre0 : SchedPre S σ₀ Root L.name L roots st0 mobs0)
+    {Root Due : Comp → Prop} (ctx : TickCtx S σ₀ t Root) (sctx : SchedCtx S σ₀ t Root Due) {fuel : Nat}
+    (IH : SchedIH S orc σ₀ t Root Due fuel) {L : Level} (hL : L ∈ S.levels) {roots : List Comp}
+    {st0 : SimSt} {mobs0 : List Obs} (hpre0 : SchedPre S σ₀ Root Due L.name L roots st0 mobs0)
     {inCh : List (Port × V)} {ls : LoopSt} {tr_ : List (Ev V)} {new_ : List Obs}
     (linv : LoopInv S L t roots st0 ls tr_ new_)
-    (iv : GenSched S orc σ₀ Root L st0 mobs0 ls new_)
+    (iv : GenSched S orc σ₀ Due L st0 mobs0 ls new_)
     {d : Dispatch V} {rest : List (Dispatch V)} (hp : ls.pending = d :: rest)
     {st' : SimSt} {outCh' changes : List (Port × V)} {callAt : Option SimTime}
     (ha : simAnswer S orc fuel L inCh ls.st ls.outCh d = .ok (st', outCh', changes, callAt))
     {tk' : Ticker V} {ds : List (Dispatch V)}
     (hprop : ls.tk.propagate L.wiring d.comp d.time changes = .ok (tk', ds)) :
-    ∃ new1, st'.obs = ls.st.obs ++ new1 ∧ GenSched S orc σ₀ Root L st0 mobs0
+    ∃ new1, st'.obs = ls.st.obs ++ new1 ∧ GenSched S orc σ₀ Due L st0 mobs0
       ⟨tk', rest ++ ds, outCh', simWake st' L.name d.comp callAt⟩ (new_ ++ new1) := by
   obtain ⟨hne, htime, hsl, htu, htk, hroots'⟩ := sim_propagate_eq_ok hprop
   have hdm : d ∈ ls.pending := by rw [hp]; simp
@@ -117,7 +117,7 @@ theorem GenSched.step {S : Static} (hS : S.Valid) {orc : Oracle} {σ₀ : SimSt}
   have hassoc : mobs0 ++ (new_ ++ newA) = (mobs0 ++ new_) ++ newA := (List.append_assoc _ _ _).symm
   -- the addressed component, if it is a child of the level
   have hchild : alookup S.parent d.comp = some L.name →
-      ChildOK S orc σ₀ Root L (simWake st' L.name d.comp callAt) ((mobs0 ++ new_) ++ newA) d.comp := by
+      ChildOK S orc σ₀ Due L (simWake st' L.name d.comp callAt) ((mobs0 ++ new_) ++ newA) d.comp := by
     intro hpar
     have hcne : d.comp ≠ "" := hS.child_ne_master hpar
     have hcx : d.comp ≠ pseudoExternal := by
@@ -143,7 +143,7 @@ theorem GenSched.step {S : Static} (hS : S.Valid) {orc : Oracle} {σ₀ : SimSt}
         have := hWs w hca d.comp
         rw [hca] at this
         rw [this, if_pos rfl]; rfl
-    have hpersist : ¬ Root d.comp → (alookup (σ₀.sched L.name).wake d.comp).isSome = true →
+    have hpersist : ¬ Due d.comp → (alookup (σ₀.sched L.name).wake d.comp).isSome = true →
         (alookup ((simWake st' L.name d.comp callAt).sched L.name).wake d.comp).isSome = true := by
       intro hnr' hsome
       rw [hWc]
@@ -169,7 +169,7 @@ theorem GenSched.step {S : Static} (hS : S.Valid) {orc : Oracle} {σ₀ : SimSt}
       refine childOK_unticked hS ctx sctx hpar hnr ?_ ?_ ?_
       · rw [hWc, hca]
         simp only [Option.orElse_none]
-        exact hown_wake.2 hnr
+        exact hown_wake.2 (fun hd => hnr (sctx.due_sub c hd))
       · intro s hs
         rw [hsch s hs, hst']
         exact hos s hs
@@ -257,10 +257,10 @@ theorem GenSched.step {S : Static} (hS : S.Valid) {orc : Oracle} {σ₀ : SimSt}
                 | some w => rfl
                 | none =>
                   simp only [Option.orElse_none]
-                  by_cases hr' : Root c
+                  by_cases hr' : Due c
                   · exact hown_wake.1 hr'
                   · rw [hown_wake.2 hr']
-                    exact sys_entry_none hS ctx sctx hsys hpar hlvl hca hr'
+                    exact sys_entry_none hS sctx hsys hpar hlvl hca hr'
               below := by
                 intro s hso hss
                 have hsne0 : s ≠ "" := by
@@ -385,7 +385,7 @@ theorem GenSched.step {S : Static} (hS : S.Valid) {orc : Oracle} {σ₀ : SimSt}
           exact hos s hs
       closed := by
         intro c hc hcn
-        show ChildOK S orc σ₀ Root L (simWake st' L.name d.comp callAt) (mobs0 ++ (new_ ++ newA)) c
+        show ChildOK S orc σ₀ Due L (simWake st' L.name d.comp callAt) (mobs0 ++ (new_ ++ newA)) c
         rw [hassoc]
         rcases (hnone c).1 hcn with rfl | hcn'
         · exact hchild hc
